@@ -4,7 +4,7 @@ import io
 from harness import core, connlib, serverlib
 
 PROP = "C02"
-LEAN_MODULES = ["MpgsModel.Props.C02", "MpgsModel.Props.C02Loop"]
+LEAN_MODULES = ["MpgsModel.Props.C02", "MpgsModel.Props.C02Loop", "MpgsModel.Props.C02Key"]
 MODEL_MODULES = ["MpgsModel.Model.Handshake", "MpgsModel.Model.ToyAead", "MpgsModel.Model.Server"]
 NS = "Mpgs.Conn."
 THEOREMS = [
@@ -16,8 +16,14 @@ THEOREMS = [
     (NS + "C02_server_hello_gate", "full"),
     ("Mpgs.Server.C02_loop_connect_only_on_proof", "full"),
     ("Mpgs.Server.C02_loop_connect_from_datagram", "full"),
+    (NS + "C02_server_key_never_changes", "full"),
+    (NS + "key_recvDatagram", "full"),
 ]
 ASSUMPTIONS = [
+    "one key per connection (C02_server_key_never_changes, key_recvDatagram): over every history of operations - datagrams of any "
+    "content, client hellos sealed under the key included, sends, packet constructions, time-outs, disconnects - a server-side connection "
+    "that holds a session key holds that same key afterwards (it rests on repair 30a6fe7; the monitor `session-key-changed` states the "
+    "same on the emissions of the real objects)",
     "at the level of the server loop (C02_loop_connect_only_on_proof, C02_loop_connect_from_datagram): in every server state, a connect "
     "event for an address is produced only while handling a queued datagram from that very address, typed CHALLENGE_RESP, exactly "
     "header + length + tag long, that AES-GCM opened under the session key of that address's half-open entry and that carries a "
